@@ -1504,6 +1504,15 @@ fn test_gk(c: &GkCase, stats: &Stats) -> CaseResult {
         let r = gk.group_apply(&sc.font, &def, &all, &mut map, &Dec::ok(), &what)?;
         gk.expect_failure(r, Some((&map, &before)), "decode-failure|empty-stream", &what)?;
         stats.class("gk:empty-stream-patch");
+        // (5c) the patch cut short inside its 29 byte header
+        let mut bad = sc.patches[j].bytes.clone();
+        bad.truncate(c.natural.1 as usize % 29);
+        let mut map = gk.fresh_map(Some((j, &bad)));
+        let before = snap(&map);
+        let what = format!("patch {j} cut to {} bytes", bad.len());
+        let r = gk.group_apply(&sc.font, &def, &all, &mut map, &Dec::ok(), &what)?;
+        gk.expect_failure(r, Some((&map, &before)), "truncated-patch", &what)?;
+        stats.class("gk:truncated-in-header");
 
         // (6) other groupings / orders
         if np >= 2 {
@@ -2078,6 +2087,27 @@ fn test_tk(c: &TkCase, stats: &Stats) -> CaseResult {
         let r = guarded(|| font.apply_table_keyed_patch(&info, &bad, &Dec::ok()))?;
         expect_failure(r, None, "decode-failure|empty-stream|low-level", &what)?;
         stats.class("empty-stream-entry");
+    }
+    // (5c) the patch cut short inside its header / offset array, and inside the 9 byte header of its first entry: it
+    // cannot be read, the application fails and nothing is marked applied
+    {
+        let head_len = 26 + 4 * (sc.entries.len() + 1);
+        let mut cuts = vec![c.natural.0 as usize % head_len];
+        if !sc.entries.is_empty() {
+            cuts.push(head_len + c.natural.1 as usize % 9);
+        }
+        for cut in cuts {
+            let mut bad = sc.patch.clone();
+            bad.truncate(cut);
+            let (group, mut map) = fresh(&bad)?;
+            let before = snap(&map);
+            let what = format!("patch of {} bytes cut to {cut} bytes (header and offsets take {head_len})", sc.patch.len());
+            let r = guarded(|| group.apply_next_patches_with_decoder(&mut map, &Dec::ok()))?;
+            expect_failure(r, Some((&map, &before)), "truncated-patch", &what)?;
+            let r = guarded(|| font.apply_table_keyed_patch(&info, &bad, &Dec::ok()))?;
+            expect_failure(r, None, "truncated-patch|low-level", &what)?;
+            stats.class(if cut < head_len { "tk:truncated-in-header" } else { "tk:truncated-in-first-entry" });
+        }
     }
     // --- evidence
     let kinds: BTreeSet<u8> = sc.modes.iter().copied().collect();
